@@ -800,7 +800,7 @@ func (p *Parser) parseImplementsInterfaces() (list ast.TypeList) {
 				}
 				list.Refs = append(list.Refs, ref)
 			} else {
-				p.errUnexpectedToken(p.read())
+				// a name that does not follow '&' is not part of the list: it starts the next definition
 				return
 			}
 		default:
